@@ -39,6 +39,8 @@ pub mod ssri {
         SizeMismatch,
     }
 
+    #[verifier::external]
+    impl ::std::fmt::Debug for Error { fn fmt(&self, f: &mut ::std::fmt::Formatter<'_>) -> ::std::fmt::Result { Ok(()) } }
     impl Integrity {
         /// ssri: `pick_algorithm` indexes hashes[0] and `to_hex` unwraps a base64 decode:
         /// both panic unless the value is well-formed
@@ -61,6 +63,27 @@ pub mod ssri {
         #[verifier::external_body]
         pub fn to_string(&self) -> (r: String) ensures r@ == sri_string(self@) { unimplemented!() }
     }
+
+    /// FromStr of Integrity, as an exec-typed spec function.  ssri: accepts the empty string
+    /// (no hashes) and digests that are not base64; rejects unknown algorithm names.
+    pub uninterp spec fn parse_integrity(text: Seq<char>) -> Option<Integrity>;
+    impl ::std::str::FromStr for Integrity {
+        type Err = Error;
+        #[verifier::external_body]
+        fn from_str(s: &str) -> (r: ::std::result::Result<Integrity, Error>)
+            ensures (r is Ok) == (parse_integrity(s@) is Some), r is Ok ==> r->Ok_0 == parse_integrity(s@)->Some_0
+        { unimplemented!() }
+    }
+    /// ASSUMED: Display then FromStr is the identity on well-formed values, and the
+    /// placeholder "sha1-deadbeef" that `index::insert` returns for a removal parses
+    #[verifier::external_body]
+    pub broadcast proof fn axiom_parse_display(i: Integrity)
+        ensures #![trigger sri_string(i@)] parse_integrity(sri_string(i@)) is Some && parse_integrity(sri_string(i@))->Some_0@ == i@
+    {}
+    #[verifier::external_body]
+    pub broadcast proof fn axiom_parse_deadbeef()
+        ensures #[trigger] parse_integrity("sha1-deadbeef"@) is Some
+    {}
 
     #[verifier::external_body]
     pub struct IntegrityChecker { i: u8 }
